@@ -92,6 +92,11 @@ ssize_t _GD_RawRead(struct gd_raw_file_ *restrict file, void *restrict ptr,
   nread = read(file->idata, ptr, nmemb * GD_SIZE(data_type));
 
   if (nread >= 0) {
+    /* a sample that is only partly there (the file is being appended to) is
+     * not returned: step back over it so that the descriptor stays where
+     * file->pos says it is */
+    if (nread % GD_SIZE(data_type))
+      lseek64(file->idata, -(off64_t)(nread % GD_SIZE(data_type)), SEEK_CUR);
     nread /= GD_SIZE(data_type);
     file->pos += nread;
   }
